@@ -8,7 +8,7 @@ import WpModel.Props.C08
 import WpModel.Lemmas.LineBreak
 
 namespace Wp.IS
-open Wp Wp.Py Wp.LB
+open Wp Wp.Py Wp.LB Wp.C09L
 
 /-- the text box after `process_whitespace`, as characters -/
 def processedText (ws : WS) (t : Text) (following : Bool) : Text :=
@@ -100,5 +100,123 @@ theorem nowrap_source_single_line (heur : Bool) (st : Style) (hws : st.ws = .now
   have hnl : find (processedText .nowrap t f) '\n' = none :=
     C09L.find_none_of_not_mem (processed_no_newline .nowrap (Or.inr rfl) t f)
   exact C09L.no_wrap_single_line heur st _ maxWidth a b r hw hnl h
+
+/-- never two consecutive spaces -/
+def NoDbl (u : Text) : Prop := ∀ i, u[i]? = some ' ' → u[i + 1]? ≠ some ' '
+
+theorem NoDbl.drop {u : Text} (h : NoDbl u) (k : Nat) : NoDbl (u.drop k) := by
+  intro i hi
+  rw [List.getElem?_drop] at hi ⊢
+  have := h (k + i) hi
+  rwa [Nat.add_assoc] at this
+
+theorem NoDbl.prefix {p u : Text} (h : NoDbl u) (hp : p <+: u) : NoDbl p := by
+  obtain ⟨s, rfl⟩ := hp
+  intro i hi
+  by_cases h1 : i + 1 < p.length
+  · have hi' : (p ++ s)[i]? = some ' ' := by
+      rw [List.getElem?_append_left (by omega)]; exact hi
+    have := h i hi'
+    rwa [List.getElem?_append_left h1] at this
+  · rw [List.getElem?_eq_none (by omega)]; simp
+
+theorem dropWhile_eq_drop (p : Char → Bool) : ∀ (u : Text), u.dropWhile p = u.drop (u.takeWhile p).length
+  | [] => rfl
+  | c :: cs => by
+    simp only [List.dropWhile, List.takeWhile]
+    split
+    · simp [dropWhile_eq_drop p cs]
+    · simp
+
+theorem lstripSp_eq_drop (u : Text) : ∃ k, lstripSp u = u.drop k ∧ ∀ c ∈ lstripSp u, c ∈ u := by
+  refine ⟨(u.takeWhile (· == ' ')).length, ?_, ?_⟩
+  · unfold lstripSp
+    exact dropWhile_eq_drop _ u
+  · intro c hc
+    unfold lstripSp at hc
+    exact (List.dropWhile_sublist _).subset hc
+
+theorem head_dropWhile_sp : ∀ (u : Text), (u.dropWhile (· == ' ')).head? ≠ some ' '
+  | [] => by simp
+  | c :: cs => by
+    simp only [List.dropWhile]
+    split
+    · exact head_dropWhile_sp cs
+    · rename_i hc
+      simp only [List.head?_cons, ne_eq, Option.some.injEq]
+      intro e; subst e; simp at hc
+
+theorem last_rstripSp (w : Text) : (rstripSp w).getLast? ≠ some ' ' := by
+  unfold rstripSp
+  rw [List.getLast?_reverse]
+  exact head_dropWhile_sp _
+
+/-- **the stripped processed text is canonical**: a text without newline and without two consecutive
+spaces, once its leading and trailing spaces are stripped, is made of words separated by single spaces -/
+theorem canonical_strip (u : Text) (hnl : ∀ c ∈ u, c ≠ '\n') (hd : NoDbl u) : Canonical (rstripSp (lstripSp u)) := by
+  obtain ⟨k, hk, hmem⟩ := lstripSp_eq_drop u
+  have hw : NoDbl (lstripSp u) := by rw [hk]; exact hd.drop k
+  have hpre := rstripSp_prefix (lstripSp u)
+  have hv : NoDbl (rstripSp (lstripSp u)) := hw.prefix hpre
+  have hlast := last_rstripSp (lstripSp u)
+  have hhead : (rstripSp (lstripSp u)).head? ≠ some ' ' := by
+    obtain ⟨s, hs⟩ := hpre
+    intro hh
+    have : (lstripSp u).head? = some ' ' := by
+      rw [← hs]
+      cases hv' : rstripSp (lstripSp u) with
+      | nil => rw [hv'] at hh; cases hh
+      | cons a as => rw [hv'] at hh; simpa using hh
+    exact head_dropWhile_sp u this
+  generalize rstripSp (lstripSp u) = v at hpre hv hlast hhead
+  refine ⟨fun c hc => hnl c (hmem c (hpre.subset hc)), ?_⟩
+  intro i hi
+  have hilt : i < v.length := by
+    by_cases hlt : i < v.length
+    · exact hlt
+    · rw [List.getElem?_eq_none (by omega)] at hi; cases hi
+  have h0 : 0 < i := by
+    cases i with
+    | zero =>
+      exfalso; apply hhead
+      cases v with
+      | nil => cases hi
+      | cons a as => simpa using hi
+    | succ j => omega
+  have hprev : v[i - 1]? ≠ some ' ' := by
+    intro hp
+    have := hv (i - 1) hp
+    rw [Nat.sub_add_cancel h0] at this
+    exact this hi
+  have hnext : i + 1 < v.length := by
+    by_cases hlt : i + 1 < v.length
+    · exact hlt
+    · have hil : i = v.length - 1 := by omega
+      exfalso; apply hlast
+      rw [List.getLast?_eq_getElem?, ← hil]; exact hi
+  exact ⟨h0, hprev, hnext, hv i hi⟩
+/-- the processed text has the `NoDbl` shape under every collapsing `white-space` -/
+theorem processed_noDbl (ws : WS) (h : ws.spaceCollapse = true) (t : Text) (f : Bool) : NoDbl (processedText ws t f) :=
+  fun i hi => processed_no_double_space ws h t f i hi
+
+/-- **what white-space processing leaves is canonical**: under `normal` / `nowrap`, for every source
+text, the text of the text box without its (single) leading and trailing space is made of words
+separated by single spaces, without newline — the texts on which `greedy` is proved. -/
+theorem processed_canonical (ws : WS) (h : ws = .normal ∨ ws = .nowrap) (t : Text) (f : Bool) :
+    Canonical (rstripSp (lstripSp (processedText ws t f))) :=
+  canonical_strip _ (processed_no_newline ws h t f)
+    (processed_noDbl ws (by rcases h with rfl | rfl <;> decide) t f)
+
+/-- `skip_first_whitespace` at the start of a text box under a collapsing `white-space` hands
+`split_text_box` exactly the text without its leading spaces -/
+theorem skipFirst_is_lstrip (ws : WS) (h : ws.skipFirst = true) (u : Text) (hu : u ≠ []) :
+    ∃ k, skipFirstWhitespace ws u 0 = some k ∧ u.drop k = lstripSp u := by
+  refine ⟨(u.takeWhile (· == ' ')).length, ?_, ?_⟩
+  · unfold skipFirstWhitespace
+    have : ¬ (0 = u.length) := by
+      intro e; exact hu (List.length_eq_zero_iff.mp e.symm)
+    simp [this, h]
+  · unfold lstripSp
+    exact (dropWhile_eq_drop _ u).symm
 
 end Wp.IS
